@@ -84,7 +84,7 @@ m = {
    {"name": "ksim", "path": "/verif/sim", "serves_properties": sorted(CHECKS.keys()),
     "kind_free_text": "deterministic simulator: all tasks of a run are corosensei coroutines on one OS thread, a seeded scheduler (uniform / sticky / PCT + stall, freeze-in-critical-section, spurious-wake overlays) decides at every shimmed atomic / park / yield / clock read; virtual clock; harness executor with spurious polls, waker replacement and cancellation; replay files carry the explicit decision stream"},
    {"name": "miri", "path": "/verif/native", "serves_properties": ["C04", "C05", "C07", "C13", "C15"],
-    "kind_free_text": "second, hook-free engine: 26 fixed multi-threaded scenarios (C07 runs all of them, C04/C05/C13/C15 the ones that speak of their property) against the unmodified kanal (guard off, real std threads, owning payloads) under cargo +nightly miri with many seeds (Miri's scheduler, weak-memory emulation and clock are functions of the seed); quick 32 seeds, thorough 512 seeds per scenario; replay = (scenario, seed, flags)"},
+    "kind_free_text": "second, hook-free engine: 27 fixed multi-threaded scenarios (C07 runs all of them, C04/C05/C13/C15 the ones that speak of their property) against the unmodified kanal (guard off, real std threads, owning payloads) under cargo +nightly miri with many seeds (Miri's scheduler, weak-memory emulation and clock are functions of the seed); quick 32 seeds, thorough 512 seeds per scenario; replay = (scenario, seed, flags)"},
  ],
  "checks": checks,
  "not_applicable": na,
